@@ -8,7 +8,7 @@ BUDGET = {"quick": 45, "thorough": 780}
 RULE = ("worlds with heterogeneous voltages, all battery models, noise tapes, scripted schedules addressing vacant "
         "stations, 20% StochasticNetwork worlds; non-trivial = >=1 period with a non-zero rate strictly below the pilot "
         "(battery-limited) and >=1 non-zero pilot sent to a vacant station; distinct = per-period history signature")
-PROBES = ["library_generated_sessions", "negative_rate_period", "battery_limited", "vacant_pilot", "resume_json", "stochastic_world", "noisy_battery", "party_charged_its_ev_copies", "second_life", "duplicate_plugin_event_refused"]
+PROBES = ["aggregates_edited_by_an_earlier_reader", "library_generated_sessions", "negative_rate_period", "battery_limited", "vacant_pilot", "resume_json", "stochastic_world", "noisy_battery", "party_charged_its_ev_copies", "second_life", "duplicate_plugin_event_refused"]
 FAULT_DIMENSION = "scheduler crash + rerun / JSON round trip; adversarial noise tape; a scheduler that 'charges' the EV copies it was handed (look-ahead)"
 ASSUMPTIONS = ["station voltages are taken from the scenario, not from the network object",
                "battery charge is read from the battery object's stored charge attribute (observation only)"]
@@ -201,6 +201,17 @@ def check(sc):
     ted = float(analysis.total_energy_delivered(sim))
     if not close(ted, tot_power_integral, n=n_acc + 1, rel=1e-8):
         out.add("C02/total_energy_vs_power_integral", "total_energy_delivered %r vs integral of aggregate power %r" % (ted, tot_power_integral))
+    # (an earlier reader of the same finished simulation converted the aggregates it was given to kA / W in place: its arrays were its own)
+    for fn_ in (analysis.aggregate_current, analysis.aggregate_power):
+        prev_ = fn_(sim)
+        try:
+            prev_ *= 1000.0
+        except (ValueError, TypeError):
+            pass
+    out.probe("aggregates_edited_by_an_earlier_reader")
+    ac = analysis.aggregate_current(sim)
+    if sim.iteration and not close(float(max(ac[: sim.iteration])), peak, n=len(ids)):
+        out.add("C02/peak", "peak per scenario ledger %r vs max of aggregate_current(sim) %r" % (peak, float(max(ac[: sim.iteration]))))
     ap = analysis.aggregate_power(sim)
     integ = float(ap[: sim.iteration].sum()) * dt
     if not close(ted, integ, n=n_acc + 1, rel=1e-8):
